@@ -27,6 +27,7 @@ import (
 
 	"github.com/containerd/stargz-snapshotter/util/cacheutil"
 	"github.com/containerd/stargz-snapshotter/util/namedmutex"
+	"github.com/containerd/stargz-snapshotter/util/verifhook"
 	"golang.org/x/sys/unix"
 )
 
@@ -341,13 +342,16 @@ func (dc *directoryCache) Add(key string, opts ...Option) (Writer, error) {
 				dc.putBuffer(b) // already exists in the cache. abort it.
 			}
 			commit := func() error {
+				defer verifhook.Event("cache.persist.done", dc, key)
 				defer done()
 				defer w.Close()
+				verifhook.Gate("cache.persist.write", dc, key)
 				n, err := w.Write(cached.(*bytes.Buffer).Bytes())
 				if err != nil || n != cached.(*bytes.Buffer).Len() {
 					w.Abort()
 					return err
 				}
+				verifhook.Gate("cache.persist.rename", dc, key)
 				return w.Commit()
 			}
 			if dc.syncAdd {
